@@ -135,7 +135,13 @@ def main():
         for mode in ('no-open', 'no-close'):
             for bl in (0, 2):
                 cases.append(dict(boundary=bd, mode=mode, parts=[(1, 1, bl)]))
-    results = chk.run_cases(case, cases, label='generate -> parse', case_timeout=60)
+    # boundary lengths up to RFC 2046's limit of 70 characters (and beyond): concrete long boundaries, one and two parts
+    for n in ((35, 69, 70, 71) if chk.tier == 'quick' else (16, 35, 64, 65, 66, 67, 68, 69, 70, 71, 100)):
+        bd = ('Q' * n)
+        cases.append(dict(boundary=bd, mode='roundtrip', parts=[(1, 1, 1)]))
+        cases.append(dict(boundary=bd, mode='roundtrip', parts=[(1, 1, 1), (1, 1, 1)]))
+        cases.append(dict(boundary='--' + bd[2:], mode='roundtrip', parts=[(1, 1, 1), (1, 1, 0)]))
+    results = chk.run_cases(case, cases, label='generate -> parse', case_timeout=150)
     chk.extra['results_compared'] = sum(r.get('compared', 0) for r in results)
 
     def replay(v):
